@@ -131,4 +131,49 @@ rewrite /leaf_iql; case: (head _ ms) => [n M pc|d|n|up n T|up n T|fs|fs dk|n k U
   by case: R => [[isv Rs]|] //; apply: (@mk_iq_ok bs (Some (isv, Rs))).
 Qed.
 
+(* ------------------------------------------------------------------ wrappers: BlockDiag / BlockInterleaved / BatchRepeat *)
+(* as ok_iq / ok_ld, but a tensor without elements (numel() == 0) is passed on unchanged by the wrappers *)
+Definition ok_iq' (bs : seq nat) (R : rhs_in F) (reduce : bool) (iq : out F) : Prop :=
+  match R, iq with
+  | Some (isv, _), OVal sh d => d = [::] \/ sh = iq_shape_spec bs R reduce \/ (isv /\ sh = bs)
+  | Some _, _ => False
+  | None, _ => True
+  end.
+Definition ok_ld' (bs : seq nat) (logdet : bool) (ld : out F) : Prop :=
+  match logdet, ld with
+  | true, OVal sh d => d = [::] \/ sh = bs
+  | true, _ => False
+  | false, _ => True
+  end.
+
+Lemma ok_iq_weaken bs R reduce iq : ok_iq bs R reduce iq -> ok_iq' bs R reduce iq.
+Proof. by case: R => [[isv Rs]|] //; case: iq => // sh d H; right. Qed.
+Lemma ok_ld_weaken bs logdet ld : ok_ld bs logdet ld -> ok_ld' bs logdet ld.
+Proof. by case: logdet => //; case: ld => // sh d H; right. Qed.
+
+Theorem shape_conventions S o R logdet reduce probes iq ld :
+  balg A eigh S o R logdet reduce probes = ROk (iq, ld) ->
+  ok_iq' (bshape o) R reduce iq /\ ok_ld' (bshape o) logdet ld.
+Proof.
+elim: o R logdet reduce iq ld => [bs ms|il base IH|base IH rep] R logdet reduce iq ld /=.
+- by move=> /leaf_shape_conventions [h1 h2]; split; [apply: ok_iq_weaken | apply: ok_ld_weaken].
+- (* BlockDiag / BlockInterleaved *)
+  case E: (balg _ _ _ _ _ _ _ _) => [[iq0 ld0]|] //.
+  have [h1 h2] := IH _ _ _ _ _ E; case=> <- <-; split.
+    move: h1; case: R {E} => [[isv Rs]|] //=.
+    case: iq0 => // sh [|x d] //=; first by move=> _; left.
+    by move=> _; rewrite /iq_shape_spec /=; case: reduce; right; left.
+  move: h2; case: logdet {E} => //; case: ld0 => // sh [|x d] //=; first by move=> _; left.
+  case=> // ->; case: (bshape base) => [|b0 bb] /=; first by right.
+  by right.
+- (* BatchRepeat *)
+  case E: (balg _ _ _ _ _ _ _ _) => [[iq0 ld0]|] //.
+  have [h1 h2] := IH _ _ _ _ _ E; case=> <- <-; split.
+    move: h1; case: R {E} => [[isv Rs]|] //=.
+    case: iq0 => // sh [|x d] //=; first by move=> _; left.
+    by move=> _; rewrite /mk_iq /iq_shape_spec /=; case: reduce; right; left.
+  move: h2; case: logdet {E} => //; case: ld0 => // sh [|x d] //=; first by move=> _; left.
+  by case=> // ->; right.
+Qed.
+
 End Conv.
